@@ -239,6 +239,24 @@ int main(int argc, char **argv)
             std::swap_ranges(t.begin() + 48 + 20 * i, t.begin() + 48 + 20 * i + 20, t.begin() + 48 + 20 * j);
             add("swap-ivs", i, j, t);
           }
+        // aggregate-preserving alterations of the stored tag (byte sum / xor-fold / multiset unchanged)
+        {
+          int hl = hm == 0 ? 20 : hm == 1 ? 16 : 32;
+          for (int v = 0; v < 3; ++v)
+            for (int rep = 0; rep < 3; ++rep)
+            {
+              int i = (rep * 7 + v) % hl, j = (i + 1 + rep) % hl;
+              auto t = C;
+              if (v == 0)
+                std::swap(t[10 + i], t[10 + j]);
+              else if (v == 1)
+                t[10 + i] = (u8_t)(t[10 + i] + 1), t[10 + j] = (u8_t)(t[10 + j] - 1);
+              else
+                t[10 + i] ^= 0x24, t[10 + j] ^= 0x24;
+              if (t != C)
+                add(v == 0 ? "tag-swap" : v == 1 ? "tag-plus-minus" : "tag-xor-pair", i, j, t);
+            }
+        }
         // forgery against a prefix-only comparison: find a body modification whose correct tag starts with
         // 0x00 (the code's own hmac is used to search) and store the tag 00 FF FF ...
         for (int tries = 0; tries < 6000; ++tries)
